@@ -49,6 +49,18 @@ CLAIMED = {
         text="Runner.tla models run() as its loops (generic run_chain under a worker pool, the batched HMC loop, the NUTS loop with its first-row convention) over chains abstracted to transition counters; TLC proves Exact / NoExtraStep / LeftAtLast / RowIsChain / Continuation for every interleaving of <=3 chains on 2 workers and every 2-call history in the bounds (an off-by-one store condition is the negative control); every call history is replayed on counting chains (4 element types, 1..32 chains) and on MetropolisHastings, GibbsSampler, HMC (both backends), NUTSChain and the multi-chain NUTS runner, and step events of counting chains under real rayon pools are trace-validated.",
         note="Trusted: TLC; shadow clones (MH/Gibbs) and hook events hmc_end/nuts_end (HMC/NUTS) as the definition of 'state after t transitions'; bit-equality of outputs.",
         ref="DESIGN.md 4.2, 5/C09", technique="TLC model check of Runner.tla over all interleavings + replay of TLC-generated call histories + trace validation of rayon runs (Trace_Runner)"),
+    "C07": dict(
+        text="Seeds.tla models generator ownership (seeded / OS / process-global generators, per-chain seed derivation modulo W, draw tokens) with two samplers running concurrently; TLC proves for every interleaving that a seeded sampler's output is the closed form of (kind, chains, seed) alone, that seeding never panics and that different seeds separate, and refutes the three pinned-tree policies (checked arithmetic, HMC on the global generator) as negative controls; Gen_Seeds enumerates scenarios (kind x chains x seed class incl. u64::MAX x pool size 1..16 x concurrent samplers x progress x repeat); a seeded sample is executed in child processes and TLC validates the result trace against a memo specification (same description => same bits, different description => different bits).",
+        note="Trusted: TLC; FNV hash of all output bits; W stands for 2^64. Scenario sample is not exhaustive (a seeded subset each run). A dedicated probe covers the recorded deadlock of NUTS::run under concurrent non-rayon autodiff threads (known finding).",
+        ref="DESIGN.md 4.1, 5/C07", technique="TLC model check of Seeds.tla over all interleavings + TLC-enumerated scenarios run in child processes + trace validation (Trace_Seeds)"),
+    "C08": dict(
+        text="Seeds.tla!DistinctStreams (no two chains share an acceptance or proposal generator, no proposal generator seeded like an acceptance generator, seeded and unseeded, all seeds modulo W) is proved by TLC and refuted for the pinned 'clone one proposal into every chain' policy; stream fingerprints of every generator of MH (library and user-defined seedable proposal), HMC (momentum rows / uniforms of the first step) and NUTS samplers with 2..64 chains, unseeded and seeded incl. u64::MAX, plus trajectories from a common start, are validated by TLC against that invariant.",
+        note="Trusted: TLC; fingerprints = first outputs of generator clones (pub fields / verif hooks); trajectories compared after 4-6 transitions.",
+        ref="DESIGN.md 4.1, 5/C08", technique="TLC model check of Seeds.tla + trace validation of recorded stream fingerprints (Trace_Seeds)"),
+    "C10": dict(
+        text="Progress.tla models the worker/reporter protocol (one channel per chain, polling reporter, at most MaxBars bars recycled left to right, exit when all final statistics were seen, receiver crash at any point); TLC proves Termination under weak fairness and DrawsExact / ExitOnlyWhenAllFinal / CountOnce over all interleavings with more chains than bars, and refutes a non-recycling reporter; TLC-enumerated completion schedules (7 chains, 5 bars) are realised deterministically through the reporter_iter hook, sampler x element type x backend x chain-count configurations (up to 48 chains) and receiver drops at every point are executed under a watchdog, and the reporter's logged bookkeeping is trace-validated against the specification with TLC inferring the unobservable drains.",
+        note="Trusted: TLC; watchdog timeouts (30-120 s against a 250 ms polling period); draws compared bit for bit with run() on a clone (NUTS: shifted by one draw); diagnostics compared with RunStats::from(draws).",
+        ref="DESIGN.md 4.3, 5/C10", technique="TLC model check incl. liveness of Progress.tla + replay of TLC-generated schedules/configurations/faults + trace validation (Trace_Progress)"),
 }
 
 PENDING_REASON = "check not built yet in this round (planned: see DESIGN.md section 5); not claimed until its TLC + conformance check exists"
